@@ -107,7 +107,9 @@ def isData (t : Int) : Bool := t == Gen.TextMessage || t == Gen.BinaryMessage
 /-- newConn's write-side arithmetic: size ≤ 0 ↦ default; + header. `reuse` = length of a hijacked
     buffer handed in as writeBuf (server only). -/
 def newW (isServer : Bool) (writeBufferSize : Int) (pool nego : Bool) (reuse : Option Nat := none) : W :=
-  let sz : Nat := (if writeBufferSize ≤ 0 then defaultWriteBufferSize else writeBufferSize.toNat) + maxFrameHeaderSize
+  let sz : Nat := (if writeBufferSize ≤ 0 then defaultWriteBufferSize
+                   else if writeBufferSize < Gen.maxControlFramePayloadSize then maxControlPayload   -- must be large enough for a control frame
+                   else writeBufferSize.toNat) + maxFrameHeaderSize
   match reuse with
   | some n => { isServer, wbufLen := n, pool, nego, bufRef := .fresh }
   | none => { isServer, wbufLen := sz, pool, nego, bufRef := if pool then .nil else .fresh }
